@@ -390,6 +390,85 @@ func (e *c06Env) scenario(kind string) error {
 				return err
 			}
 		}
+	case "S6": // the wallet is handed a block below its own tip: a block delivered twice; the node fell back while the wallet was stopped
+		if err := e.importWallet("a"); err != nil {
+			return err
+		}
+		if err := e.waitIdle(); err != nil {
+			return err
+		}
+		if err := e.refreshKeys("a"); err != nil {
+			return err
+		}
+		for i := 0; i < 6; i++ {
+			if err := e.extend(e.rs.Range(1, 2), true); err != nil {
+				return err
+			}
+		}
+		if err := e.waitIdle(); err != nil {
+			return err
+		}
+		// (1) a block the wallet already has (1-2 below its tip) is announced again, as happens when a
+		// block connects between listener registration and the height read of a start-up: the wallet
+		// goes back to it (no connect in that commit) and is brought forward by the next announcement
+		d1 := e.rs.Range(1, 2)
+		if err := e.step("announce again", false, func() error {
+			bc := e.wd.N.BestChain()
+			return e.wd.W.Deliver(bc[len(bc)-1-d1])
+		}); err != nil {
+			return err
+		}
+		if e.rs.Chance(50) {
+			if err := e.waitIdle(); err != nil {
+				return err
+			}
+		}
+		if err := e.extend(e.rs.Range(0, 2), true); err != nil {
+			return err
+		}
+		if err := e.waitIdle(); err != nil {
+			return err
+		}
+		// (2) orderly stop; the node comes back 1-3 blocks below the wallet's tip (stopped in the detach
+		// phase of a reorganisation); the wallet starts against it; the node then attaches the very
+		// same blocks again and goes on
+		if !e.wd.W.Stop(30 * time.Second) {
+			return fmt.Errorf("inconclusive: Stop did not return")
+		}
+		e.done += e.wd.W.DB.Commits()
+		d2 := e.rs.Range(1, 3)
+		bc := e.wd.N.BestChain()
+		oldTip := bc[len(bc)-1]
+		e.logf("-- orderly stop; node falls back %d blocks", d2)
+		if _, _, err := e.wd.N.Reorganize(bc[len(bc)-1-d2]); err != nil {
+			return err
+		}
+		for attempt := 0; ; attempt++ {
+			k := int64(0)
+			if e.crashes == 0 && e.crashK > e.done {
+				k = e.crashK - e.done
+			}
+			w, err := e.open(e.wd.N, k, e.before)
+			if err == sim.ErrFrozen && attempt < 4 {
+				e.crashes++
+				e.logf("-- CRASH #%d during start-up -- restart", e.crashes)
+				continue
+			}
+			if err != nil {
+				return fmt.Errorf("violation: start after the orderly stop failed: %v", err)
+			}
+			e.wd.W = w
+			break
+		}
+		e.logf("-- node attaches the same %d blocks again", d2)
+		if _, _, err := e.wd.N.Reorganize(oldTip); err != nil {
+			return err
+		}
+		for i := 0; i < 3; i++ {
+			if err := e.extend(e.rs.Range(0, 1), true); err != nil {
+				return err
+			}
+		}
 	case "S4": // import of a wallet with history on a chain of > 1000 blocks: two rescan batches
 		if err := e.importWallet("a"); err != nil {
 			return err
@@ -709,15 +788,15 @@ type c06Plan struct {
 }
 
 var c06Plans = map[string][]c06Plan{
-	"quick":    {{"S1", 6, 200, 2}, {"S2", 4, 200, 2}, {"S5", 4, 200, 2}, {"S4", 2, 9, 0}},
-	"thorough": {{"S1", 40, 2000, 20}, {"S2", 24, 2000, 12}, {"S5", 24, 2000, 12}, {"S4", 12, 16, 2}},
+	"quick":    {{"S1", 6, 200, 2}, {"S2", 4, 200, 2}, {"S5", 4, 200, 2}, {"S6", 4, 200, 2}, {"S4", 2, 9, 0}},
+	"thorough": {{"S1", 40, 2000, 20}, {"S2", 24, 2000, 12}, {"S5", 24, 2000, 12}, {"S6", 24, 2000, 12}, {"S4", 12, 16, 2}},
 }
 
 func init() {
 	core.Register(&core.Property{
 		ID:    "C06",
 		Level: "fault_enumeration",
-		Rule: "case = one deterministic scenario variant (S1 live following with reorgs, S2 orderly stop + node moves on incl. a reorg + start-up catch-up of 30-60 blocks, S5 background removal of one of two wallets while blocks arrive, S4 import of a wallet with history on a chain of > 1000 blocks — two rescan batches — for which the boundaries of the import phase are taken); a crash-free twin run counts the wallet-database commits C and records the final observation; then EVERY commit boundary k=1..C is taken as crash point on both sides " +
+		Rule: "case = one deterministic scenario variant (S1 live following with reorgs, S2 orderly stop + node moves on incl. a reorg + start-up catch-up of 30-60 blocks, S5 background removal of one of two wallets while blocks arrive, S6 a block below the wallet's tip announced again and a start against a node that fell back 1-3 blocks and later attaches the same blocks again, S4 import of a wallet with history on a chain of > 1000 blocks — two rescan batches — for which the boundaries of the import phase are taken); a crash-free twin run counts the wallet-database commits C and records the final observation; then EVERY commit boundary k=1..C is taken as crash point on both sides " +
 			"(before: commit k lost; after: commit k is the last one written), plus random double crashes: the interposer freezes the database at the boundary, the instance is stopped and abandoned, a new instance opens the same directory, unfinished API steps are repeated, the scenario continues. " +
 			"Oracles: final observation == twin's and == reference ledger; the wallet must come up. distinct_nontrivial = distinct (scenario, variant, k, side, second crash) runs in which the crash point was actually reached",
 		Assumptions: []string{"a crash is modelled as freeze-and-abandon at a commit boundary: a LevelDB batch write is the only way data reaches the files, so the files hold exactly the first k commits", "wallets are created from scenario-determined mnemonics so that twin and crash runs are comparable"},
